@@ -295,7 +295,7 @@ def model(case, mode="final"):
             stdin_lines = pipe_lines
         else:
             stdin_lines = []
-        chunks = {"out": H.stage_stdout(i, stdin_lines), "err": f"E{i}\n"}
+        chunks = {"out": H.stage_stdout(i, stdin_lines, list(st.get("args", ())) + list(st.get("args_after", ()))), "err": f"E{i}\n"}
         pipe_lines = []
         for stream in ("out", "err"):
             d = p[stream]
@@ -356,7 +356,7 @@ def _cmp_sink(obs, prefix, chunks, multiset=False):
     return (missing, extra)
 
 
-_TOKEN_LINE = re.compile(r"^(?:[OE]\d|I\d_\w*\dI|old\d|F\d)$")
+_TOKEN_LINE = re.compile(r"^(?:[OE]\d|I\d_\w*\dI|A\d_\w*\dA|old\d|F\d)$")
 
 
 def _norm_line(ln, t=None):
@@ -834,6 +834,46 @@ def gen_cases(thorough):
                         neigh = _neighbour_sets(pos, ("ext",))[0]
                         add("tform", c, f"{sp} {fname}", kind, pos, cap, [{"op": sp, "target": text, "words": list(words)}], pre, neigh, True, "existing")
                         cases[-1]["env"] = dict(env)
+
+    # 9. argv delivered == argv written: every spelling between two ordinary arguments
+    #    (`cmd w1 o>err w2`); the stage echoes its argv, so an operator that is lexed short
+    #    (`o>e` + stray `rr`), long (eats the next word) or glued to a neighbour shows up
+    for sp in UNIVERSE:
+        c = classify(sp)
+        for lead in (False, True) if c == "IN" else (False,):
+            for kind in kinds:
+                pos = "first2" if c in ("A2P", "E2P") else "only"
+                if kind == "unthr" and pos != "only":
+                    continue
+                for cap in ("bare", "$()"):
+                    r = {"op": sp, "lead": lead}
+                    pre = {}
+                    if c in FILE_CLASSES:
+                        r["target"] = "f"
+                        pre = {"f": INPUT if c == "IN" else OLD}
+                    neigh = _neighbour_sets(pos, ("ext",))[0]
+                    add("argv", c, sp + ("(lead)" if lead else ""), kind, pos, cap, [r], pre, neigh, sp in DOCUMENTED, "existing" if pre else None)
+                    st = cases[-1]["stages"][POSITIONS[pos][0] - 1]
+                    st["args"], st["args_after"] = ["w1"], ["w2"]
+
+    # 10. every source x destination name combination that is NOT an operator of the grammar
+    #     (`a>o`, `o>out`, `e>2`, `>err`, `2>&2`, `o>&1` ...), generated from the documented name
+    #     lists: without `&` it can only be the no-space form of `src>` with a file called like the
+    #     destination (error, or exactly the spaced sibling); with `&` it must be rejected
+    for src in OUT_NAMES + ERR_NAMES + ALL_NAMES:
+        for amp in ("", "&"):
+            for dst in ("o", "out", "1", "e", "err", "2"):
+                op = f"{src}>{amp}{dst}"
+                if op in UNIVERSE:
+                    continue
+                for kind in ("ext", "thr") if thorough else ("ext",):
+                    if amp:
+                        assert classify(op) is None, op
+                        add("combo", "MAL", op, kind, "only", "bare", [{"op": op}], {}, (), True)
+                    else:
+                        c = classify(src + ">")
+                        add("combo", c, op, kind, "only", "bare", [{"op": src + ">", "target": dst, "nospace": True}], {dst: OLD}, (), False, "existing")
+                    cases[-1]["stages"][0]["args"], cases[-1]["stages"][0]["args_after"] = ["w1"], ["w2"]
     return cases
 
 
@@ -993,9 +1033,9 @@ def run(ctx):
                 break
         else:
             if kind_of(sig) == "reject":
-                keys[idx] = f"{m['class']}:{m['kind']}:{sig}" + (f":{m['spelling']}" if m["family"] in ("malformed", "nospace", "tform") else "")
+                keys[idx] = f"{m['class']}:{m['kind']}:{sig}" + (f":{m['spelling']}" if m["family"] in ("malformed", "nospace", "tform", "combo") else "")
             else:
-                keys[idx] = f"{m['class']}:{m['kind']}:{m['pos']}:{case['capture']}:{sig}" + (f":{m['spelling']}" if m["family"] in ("malformed", "nospace", "tform") else "")
+                keys[idx] = f"{m['class']}:{m['kind']}:{m['pos']}:{case['capture']}:{sig}" + (f":{m['spelling']}" if m["family"] in ("malformed", "nospace", "tform", "combo") else "")
     n_viol_cases = len(keys)
     for idx in sorted(keys, key=lambda i: (len(keys[i]), keys[i], i)):
         case, v = cases[idx], res[idx]["verdict"]
